@@ -113,6 +113,101 @@ type c28Ret struct {
 	dep       *c28Dep
 	build     func(ins []node.UTXORef, amount common.Fixed64) interfaces.Transaction
 	buildAll  func(ins []node.UTXORef) interfaces.Transaction
+	txType    common2.TxType
+}
+
+// ---------- output shapes of a deposit return ----------
+//
+// Besides "amount to the owner's plain address + change to the own deposit
+// address" a return may pay to FOREIGN deposit addresses (another registered
+// producer, a CR candidate, a deposit address nobody registered) or to a
+// mixture. Only outputs to the spender's OWN deposit address stay locked;
+// everything else leaves the deposit and must fit into the available amount.
+
+type c28Dest struct {
+	addr common.Uint168
+	what string // "producer" | "cr" | "unregistered"
+}
+
+func (k *c28) foreignDests(own common.Uint168) map[string][]c28Dest {
+	m := map[string][]c28Dest{}
+	for _, p := range k.m.sortedProds() {
+		if !p.addr.IsEqual(own) && !k.tainted["producer:"+p.id] {
+			m["producer"] = append(m["producer"], c28Dest{p.addr, "producer"})
+		}
+	}
+	for _, c := range k.m.sortedCRs() {
+		if !c.addr.IsEqual(own) && !k.tainted["cr:"+c.id] {
+			m["cr"] = append(m["cr"], c28Dest{c.addr, "cr"})
+		}
+	}
+	m["unregistered"] = []c28Dest{{node.DepositAddr(node.Key(node.KeyVoter + 60)), "unregistered"}}
+	return m
+}
+
+func (k *c28) pickDest(own common.Uint168) c28Dest {
+	m := k.foreignDests(own)
+	var cats []string
+	for _, c := range []string{"producer", "cr", "unregistered"} {
+		if len(m[c]) > 0 {
+			cats = append(cats, c)
+		}
+	}
+	l := m[cats[k.r.Intn(len(cats))]]
+	return l[k.r.Intn(len(l))]
+}
+
+// shapedReturn builds a return that moves `amount` (+fee) out of the own
+// deposit address: shape "foreign" = everything to one foreign deposit
+// address; "mixed" = a plain part of at most plainMax to the owner plus one or
+// two foreign deposit outputs. The rest of the inputs goes back to the own
+// deposit address as change.
+func (k *c28) shapedReturn(r *c28Ret, ins []node.UTXORef, amount, plainMax int64, shape string) (interfaces.Transaction, []string) {
+	var outs []*common2.Output
+	var dests []string
+	left := amount
+	if shape == "mixed" && plainMax >= 1 && left >= 2 {
+		hi := plainMax
+		if hi > left-1 {
+			hi = left - 1
+		}
+		p := 1 + k.r.Int63n(hi)
+		outs = append(outs, node.StdOut(r.owner.ProgramHash, common.Fixed64(p)))
+		dests = append(dests, "plain")
+		left -= p
+	}
+	n := 1
+	if shape == "mixed" && left >= 2 && k.r.Intn(2) == 0 {
+		n = 2
+	}
+	for i := 0; i < n; i++ {
+		v := left
+		if i < n-1 {
+			v = 1 + k.r.Int63n(left-1)
+		}
+		left -= v
+		d := k.pickDest(r.addr)
+		outs = append(outs, node.StdOut(d.addr, common.Fixed64(v)))
+		dests = append(dests, d.what)
+	}
+	for i := range ins {
+		ins[i].Owner = r.owner
+	}
+	own := r.addr
+	tx := node.BuildTx(node.TxSpec{Type: r.txType, Payload: &payload.ReturnDepositCoin{}, Ins: ins, Outs: outs, ChangeTo: &own})
+	return tx, dests
+}
+
+func (k *c28) countForeign(dests []string) {
+	k.c.Inc("return_deposit_to_foreign_deposit_address_cases")
+	for _, d := range dests {
+		if d != "plain" {
+			k.c.Inc("return_deposit_to_foreign_deposit_address_dest:" + d)
+		}
+	}
+	if len(dests) > 1 {
+		k.c.Inc("return_deposit_to_foreign_deposit_address_mixed_outputs")
+	}
 }
 
 // pickIns chooses deposit UTXOs (random order) covering need; nil if impossible.
@@ -168,7 +263,21 @@ func (k *c28) honestReturn(r *c28Ret) bool {
 		return false
 	}
 	tx := r.build(ins, common.Fixed64(net-fee))
+	var dests []string
+	if sh := k.r.Intn(10); sh < 3 && net-fee >= 2 {
+		// the returned amount goes (partly) to a foreign deposit address; it still leaves the own deposit
+		shape := "foreign"
+		if sh == 0 {
+			shape = "mixed"
+		}
+		tx, dests = k.shapedReturn(r, ins, net-fee, net-fee-1, shape)
+		k.countForeign(dests)
+	}
 	if k.submitHonest(r.honest, tx, r.subj) {
+		if dests != nil {
+			k.c.Inc("return_deposit_to_foreign_deposit_address_honest_accepted")
+			k.c.Inc("accepted:" + r.honest + ":to-foreign-deposit-address")
+		}
 		k.c.Inc("accepted:" + r.honest + ":" + mode)
 		if sum > net {
 			k.c.Inc("accepted:" + r.honest + ":with-change")
@@ -226,11 +335,30 @@ func (k *c28) overdrawReturn(r *c28Ret) bool {
 	}
 	var tx interfaces.Transaction
 	if net == bal {
-		tx = r.buildAll(k.w.UTXOs(r.addr))
+		ins = k.w.UTXOs(r.addr)
+		tx = r.buildAll(ins)
 	} else {
 		tx = r.build(ins, common.Fixed64(net-fee))
 	}
-	k.expectReject(r.fam+":"+kind, r.subj, r.taint, tx, map[string]interface{}{"available": avail, "deposit_address_balance": bal, "lock": r.dep.lock, "penalty": r.dep.penalty, "net_out": net})
+	cas := map[string]interface{}{"available": avail, "deposit_address_balance": bal, "lock": r.dep.lock, "penalty": r.dep.penalty, "net_out": net}
+	if sh := k.r.Intn(10); sh < 5 && net-fee >= 2 {
+		// the excess is paid to FOREIGN deposit addresses (it looks like "deposit stays deposit", but it leaves
+		// the spender's own lock); a plain part, if any, stays below the available amount
+		shape := "foreign"
+		if sh < 2 {
+			shape = "mixed"
+		}
+		var dests []string
+		tx, dests = k.shapedReturn(r, ins, net-fee, avail-fee-1, shape)
+		k.countForeign(dests)
+		k.c.Inc("return_deposit_to_foreign_deposit_address_overdraw_cases")
+		if avail >= fee {
+			k.c.Inc("return_deposit_to_foreign_deposit_address_overdraw_with_positive_available")
+		}
+		cas["state_kind"], cas["output_shape"], cas["outputs"] = kind, shape, dests
+		kind = "foreign-deposit-output"
+	}
+	k.expectReject(r.fam+":"+kind, r.subj, r.taint, tx, cas)
 	return true
 }
 
@@ -312,7 +440,7 @@ func (k *c28) sameBlockReturns(r *c28Ret) bool {
 // ---------- producers ----------
 
 func (k *c28) prodRet(p *c28Prod, d *c28Dep) *c28Ret {
-	return &c28Ret{fam: "return-deposit", honest: "ReturnDepositCoin", subj: p.name, taint: "producer:" + p.ownerHex, owner: p.owner, addr: p.addr, dep: d,
+	return &c28Ret{txType: common2.ReturnDepositCoin, fam: "return-deposit", honest: "ReturnDepositCoin", subj: p.name, taint: "producer:" + p.ownerHex, owner: p.owner, addr: p.addr, dep: d,
 		build: func(ins []node.UTXORef, amount common.Fixed64) interfaces.Transaction {
 			return node.ReturnDepositCoinAmount(ins, p.owner, amount, 0)
 		},
@@ -529,7 +657,7 @@ func (k *c28) actProducer(p *c28Prod) {
 // ---------- CR candidates ----------
 
 func (k *c28) crRet(c *c28CR, d *c28Dep) *c28Ret {
-	return &c28Ret{fam: "return-cr-deposit", honest: "ReturnCRDepositCoin", subj: c.name, taint: "cr:" + c.cidHex, owner: c.acc, addr: c.addr, dep: d,
+	return &c28Ret{txType: common2.ReturnCRDepositCoin, fam: "return-cr-deposit", honest: "ReturnCRDepositCoin", subj: c.name, taint: "cr:" + c.cidHex, owner: c.acc, addr: c.addr, dep: d,
 		build: func(ins []node.UTXORef, amount common.Fixed64) interfaces.Transaction {
 			return node.ReturnCRDepositCoinAmount(ins, c.acc, amount, 0)
 		},
